@@ -151,7 +151,7 @@ void do_raise(int si, int times, const char *who) {
   for (int k = 0; k < times; k++) {
     bool lib = sg.n_added > 0;
     long before = g_sent[si];
-    TRC("%sraise SIG%s (%s)", who, SIGN[si], lib ? "an event is added" : "no event added");
+    TRC("%s%sraise SIG%s (%s)", who, (who[0] && who[strlen(who) - 1] != ' ') ? ": " : "", SIGN[si], lib ? "an event is added" : "no event added");
     raise(SIGS[si]);
     if (lib) {
       sg.D_batch++; w.lib_deliveries++;
@@ -230,7 +230,9 @@ void do_turn(bool quiescent) {
   int r;
   for (int attempt = 0;; attempt++) {
     w.eintr = false;
-    r = event_base_loop(w.base, flags);
+    { sigset_t al, old; sigemptyset(&al); sigaddset(&al, SIGALRM); sigprocmask(SIG_BLOCK, &al, &old);   // libFuzzer's SIGALRM must not interrupt a zero-timeout poll/select
+      r = event_base_loop(w.base, flags);
+      if (!sigismember(&old, SIGALRM)) sigprocmask(SIG_UNBLOCK, &al, nullptr);   /* not SIG_SETMASK: signalfd add/del inside the loop changes the mask */ }
     TRC("turn(%s) -> %d", quiescent ? "quiescent" : "one pass", r);
     CK(r >= 0, "C07/loop-error", "event_base_loop returned %d", r);
     if (!w.eintr || attempt >= 3) break;
@@ -332,6 +334,7 @@ extern "C" int LLVMFuzzerTestOneInput(const uint8_t *data, size_t size) {
   sim_set_wait_hook(wait_hook, nullptr);
 
   w.backend = s.below(4); w.mech = s.below(2); w.nprio = 1 + s.below(3);
+  bool may_fork = s.below(verif_param("fork_one_in", 12)) == 1;   // forking costs milliseconds under ASan: keep it to a fraction of the cases
   install_sentinels(s);
   struct event_config *cfg = event_config_new();
   static const char *AVOID[][3] = {{nullptr}, {nullptr}, {"epoll", nullptr}, {"epoll", "poll", nullptr}};
@@ -374,7 +377,7 @@ extern "C" int LLVMFuzzerTestOneInput(const uint8_t *data, size_t size) {
       case 10: case 11: case 12: do_turn(true); break;
       case 13: do_turn(false); break;
       case 14: {   // fork + event_reinit in the child (at most once, never in the child)
-        if (w.forked || w.in_child || !s.chance(1, 2)) break;
+        if (w.forked || w.in_child || !may_fork) break;
         w.forked = true;
         if (do_fork()) TRC("child continues with the rest of the history"); else TR("parent continues after the child finished");
         break; }
